@@ -41,6 +41,7 @@ structure CaseAcc where
   iADef : List Int := []
   iGDef : List Int := []
   inputs : Array (List Nat) := #[]
+  codes : Option (Int × Int) := none
 
 def parseItem (s : String) : Item :=
   match s.splitOn "." with
@@ -158,7 +159,13 @@ def process (out : IO.FS.Stream) (a : CaseAcc) : IO Unit := do
     | none => out.putStrLn "V packLookup ok"
     | some (q, x) => out.putStrLn s!"V packLookup FAIL {q} {x}"
   -- R: the driver model run on the implementation's dense table
-  let P : Y.D.Params Unit := Y.D.dparams yg rows rows.length (fun _ _ => ()) ()
+  -- the action constants are the ones the implementation will emit (CODES line); on a certified
+  -- table they are `errCode n` / `accCode n` and P is exactly `dparams` (checked as V codes)
+  let P0 : Y.D.Params Unit := Y.D.dparams yg rows rows.length (fun _ _ => ()) ()
+  let P : Y.D.Params Unit := match a.codes with
+    | some (e, c) => { P0 with errC := e, accC := c }
+    | none => P0
+  out.putStrLn s!"V codes {verdict (P.errC == Y.errCode rows.length && P.accC == Y.accCode rows.length)}"
   for i in [0:a.inputs.size] do
     let w := a.inputs[i]!
     match Y.D.run P (200 * (w.length + 2) + 200) (Y.D.init () (w.map fun x => (x, ()))) with
@@ -379,6 +386,7 @@ partial def loop (inp out : IO.FS.Stream) (a : CaseAcc) (x : XAcc := {}) : IO Un
   | "ADEF" :: xs => loop inp out { a with iADef := xs.map String.toInt! }
   | "GDEF" :: xs => loop inp out { a with iGDef := xs.map String.toInt! }
   | "INPUT" :: xs => loop inp out { a with inputs := a.inputs.push (xs.map String.toNat!) }
+  | "CODES" :: e :: c :: _ => loop inp out { a with codes := some (e.toInt!, c.toInt!) }
   | "ENDCASE" :: _ => do process out a; loop inp out {}
   | _ => loop inp out a
 
